@@ -26,6 +26,7 @@ def build_engine(tier):
     from pyvc.engine import Engine
     import contracts.registry as reg
     e = Engine(timeout_ms=10000 if tier == "quick" else 120000)
+    e.tier = tier
     reg.install_all(e)
     return e, reg
 
@@ -168,6 +169,8 @@ def main(argv=None):
     ap.add_argument("--replay")
     ap.add_argument("--jobs", type=int, default=min(16, os.cpu_count() or 4))
     ap.add_argument("--only", help="verify only function keys matching this regex (debugging)")
+    ap.add_argument("--functions", help="verify these contract keys (comma separated) instead of the property's list (development aid; use with VERIF_OUT)")
+    ap.add_argument("--case", help="only contract cases matching this regex (development aid)")
     ap.add_argument("-v", action="store_true")
     a = ap.parse_args(argv)
     pid, tier = a.property, a.tier if a.tier in ("quick", "thorough") else "quick"
@@ -179,18 +182,28 @@ def main(argv=None):
             from harness import replay
             return replay.run_replay_file(a.replay)
         prop = reg.PROPS[pid]
-        keys = list(prop["functions"]) + list(prop.get("lemmas", []))
+        # an entry "key@@regex" restricts a function to the contract cases matching the regex; functions_thorough are added in
+        # the thorough tier (whole bodies that are too expensive for the every-change check)
+        keys = list(prop["functions"]) + (list(prop.get("functions_thorough", [])) if tier == "thorough" else []) + list(prop.get("lemmas", []))
+        if a.functions:
+            keys = a.functions.split(",")
         if a.only:
             keys = [k for k in keys if re.search(a.only, k)]
         e0, _ = build_engine(tier)
         jobs = []
+        seen_jobs = set()
         for k in keys:
+            k, _, case_re = k.partition("@@")
             if k.startswith("lemma:"):
                 jobs.append((k, None))
             elif k not in e0.contracts:
                 raise KeyError(f"no contract registered for {k}")
             else:
-                jobs += [(k, cn) for cn, _ in e0.contracts[k].cases]
+                for cn, _ in e0.contracts[k].cases:
+                    if (a.case and not re.search(a.case, cn)) or (case_re and not re.search(case_re, cn)) or (k, cn) in seen_jobs:
+                        continue
+                    seen_jobs.add((k, cn))
+                    jobs.append((k, cn))
         with mp.get_context("fork").Pool(a.jobs) as pool:
             fn_reports, results, errors = explore_parallel(pool, jobs, tier, a.jobs)
     except Exception:
